@@ -335,7 +335,8 @@ func init() {
 		if n, ok := it.v.(native); ok {
 			if r, ok := n.v.(*vreader); ok {
 				if r.err != nil {
-					return tuple{[]value(nil), r.err}
+					// as the real io.ReadAll: what was read so far and the error
+					return tuple{r.data, r.err}
 				}
 				return tuple{r.data, iface{}}
 			}
